@@ -1,5 +1,6 @@
 import YgmVerif.Model.Deliver
 import YgmVerif.Model.Router
+import YgmVerif.Model.RouterP
 import Driver.Util
 /-! mode `deliver`: replay the message-movement history of a real run through `YgmVerif.Deliver.step`.
 Model uid = U*1000 + k (U = the harness's uid; k distinguishes mcast copies / broadcast legs).
@@ -44,6 +45,15 @@ def handle (d : DS) (line : String) : DS × String :=
     | some n, some p =>
       let scheme := if sch == "NR" then Router.Scheme.NR else if sch == "NLNR" then Router.Scheme.NLNR else Router.Scheme.NONE
       (⟨n, fun me dst => Router.nextHop scheme p me dst, St.init⟩, "ok")
+    | _, _ => (d, "bad-op")
+  | ["initp", n, sch, p, pl] =>
+    -- the same, for a placement of ranks on nodes given by name (block | cyclic): next hops through RouterP's lookups
+    match n.toNat?, p.toNat? with
+    | some n, some p =>
+      let scheme := if sch == "NR" then Router.Scheme.NR else if sch == "NLNR" then Router.Scheme.NLNR else Router.Scheme.NONE
+      match RouterP.byName? pl (n / p) p with
+      | some P => (⟨n, fun me dst => P.nextHop scheme me dst, St.init⟩, "ok")
+      | none => (d, "bad-op")
     | _, _ => (d, "bad-op")
   | ["async", r, u, k, dest, dir] =>
     match r.toNat?, u.toNat?, k.toNat?, dest.toNat?, dir.toNat? with
